@@ -50,7 +50,11 @@ type Options struct {
 	NoPHP5NewChain   bool // PHP 5 new $a->b[0] (C05 finding)
 	NoPHP5Goto       bool // PHP 5 goto label span (C05 finding)
 	// Simple restricts to constructs the formatter handles (set by C17 as findings are triaged).
-	NoNowdoc             bool
+	NoNowdoc bool
+	// NoAltCloseTag: alternative-syntax statements end in ";" rather than a close tag (C17 finding formatter-brace-close-tag).
+	NoAltCloseTag bool
+	// BraceAltIfBeforeElse: an alternative-syntax if that is the unbraced body of an if/elseif followed by else/elseif is put in braces (C17 finding formatter-dangling-else).
+	BraceAltIfBeforeElse bool
 	NoBinaryPrefixSingle bool // b'...' (finding binary-prefix-single-quote)
 	// NoLoneCR avoids a lone CR where the lexer needs a "newline" or whitespace between tokens (finding lone-cr-newline).
 	NoLoneCR bool
